@@ -2,6 +2,8 @@ package dnsmsg
 
 import (
 	"sync"
+
+	"github.com/IrineSistiana/mosproxy/internal/pool"
 )
 
 const (
@@ -134,7 +136,7 @@ func (m *Msg) Len() (l int) {
 	return l
 }
 
-var msgPool = sync.Pool{New: func() any { return new(Msg) }}
+var msgPool = pool.ObjPool{New: func() any { return new(Msg) }}
 
 func NewMsg() *Msg {
 	return msgPool.Get().(*Msg)
